@@ -130,6 +130,10 @@ func (nm *namer) Lisp(f *Form) string {
 		return "(progn" + nm.forms(f.A) + ")"
 	case "When":
 		return "(when " + nm.Lisp(f.C) + nm.forms(f.A) + ")"
+	case "Unless":
+		return "(unless " + nm.Lisp(f.C) + nm.forms(f.A) + ")"
+	case "If":
+		return "(if " + nm.Lisp(f.C) + nm.forms(f.A) + ")"
 	case "Cond":
 		var b strings.Builder
 		b.WriteString("(cond")
@@ -239,8 +243,10 @@ func Gallina(f *Form) string {
 		return fmt.Sprintf("(Setv %d (%d)%%Z)", f.N, f.Z)
 	case "CallList", "Progn", "IgnoreErrors", "Lam":
 		return "(" + f.K + " " + gForms(f.A) + ")"
-	case "When":
-		return "(When " + Gallina(f.C) + " " + gForms(f.A) + ")"
+	case "When", "Unless":
+		return "(" + f.K + " " + Gallina(f.C) + " " + gForms(f.A) + ")"
+	case "If":
+		return "(If " + Gallina(f.C) + " " + Gallina(f.A[0]) + " " + Gallina(f.A[1]) + ")"
 	case "Cond":
 		xs := make([]string, len(f.Cl))
 		for i, c := range f.Cl {
